@@ -63,7 +63,7 @@ def _reg(pid, run, theorems=(), translator=("T1",), rule="", level_text="", leve
 _reg("C01", c01.run, translator=("T1", "T2", "T3"),
      theorems=["NirVerif.C01.edges_roundtrip", "NirVerif.C01.transport", "NirVerif.C01.nothing_added", "NirVerif.C01.type_tag",
                "NirVerif.C01.leaf_end_to_end", "NirVerif.C01.leaf_native_roundtrip", "NirVerif.C01.leaf_exact",
-               "NirVerif.C01.graph_end_to_end",
+               "NirVerif.C01.leaf_exact_conv2d", "NirVerif.C01.graph_end_to_end",
                "NirVerif.C01.child_step", "NirVerif.C01.backVal_array",
                "NirVerif.C01.backVal_npscalar", "NirVerif.C01.backVal_int"],
      rule="Random graphs over all 17 primitives + nested graphs (depth <= 3), 0-8 nodes, arbitrary names (ASCII, Latin-1, "
@@ -81,7 +81,7 @@ _reg("C01", c01.run, translator=("T1", "T2", "T3"),
                 "re-defaulted; for file-native values (arrays, little-endian numpy scalars - every node that itself came "
                 "from a file) that is the constructor on the node's own field values (leaf_native_roundtrip), i.e. read o "
                 "write agrees with the dictionary round trip of C13; and a node built by the constructor of a class that stores its "
-                "parameters unchanged (12 of the 17 classes) with native values is read back as EXACTLY the same node "
+                "parameters unchanged, or Conv2d (13 of the 17 classes), with native values is read back as EXACTLY the same node "
                 "(leaf_exact: fields, value types, derived types, metadata). End to end for flat graphs (graph_end_to_end): for a graph "
                 "whose children are leaf primitives of any class (Input/Output/Flatten with their class-specific from_dict "
                 "included; any number of nodes, any names, any edge list; empty metadata), whenever write succeeds and "
@@ -131,17 +131,20 @@ _reg("C04", c04.run,
                 "field table. Physical string encodings, chunking, compression are invisible to the model's reader by "
                 "construction; that the real reader agrees is established by the correspondence run.",
      level_note="Lean kernel; hand-written models of to_dict/from_dict/write/read and of the h5py contract (create_dataset conversions, item[()], link names, iteration order), validated against the real library and real files on every run.")
-_reg("C05", c05.run,
+_reg("C05", c05.run, module="NirVerif.Properties.C05Stable",
      theorems=["NirVerif.C05.affine_linear", "NirVerif.C05.elementwise1", "NirVerif.C05.neuron",
-               "NirVerif.C05.io_ndarray", "NirVerif.C05.io_sequence"],
+               "NirVerif.C05.io_ndarray", "NirVerif.C05.io_sequence", "NirVerif.C05.stable_dict", "NirVerif.C05.stable_file"],
      rule="Every element-wise primitive x rank 0..3 (thorough 0..4) x axis lengths 1..3 with all 16 dtypes cycled; "
           "Affine/Linear weights of rank 2..5; Input/Output shapes as ndarray(int64/int32)/list/tuple/dict; each node "
           "also taken through a dict and a file round trip; oracle = numpy evaluating the documented equation.",
      level_text="Kernel-checked: for every weight batch++[m,n] Affine/Linear are built and declare int64 vectors "
                 "batch++[n] / batch++[m], which is exactly the operand/result of the batched matrix-vector product; "
                 "element-wise primitives and neuron models declare the parameter shape (any rank incl. 0); Input/Output "
-                "mirror a given ndarray, list or tuple. Constructors are tied to the model by differential testing of "
-                "every primitive; round-trip stability by the oracle.",
+                "mirror a given ndarray, list or tuple; the declared types are stable under the dictionary round trip "
+                "and, for file-native parameter values, under the file round trip (stable_dict, stable_file: the node "
+                "that comes back IS the original node, for the 12 classes that store their parameters unchanged). "
+                "Constructors are tied to the model by differential testing of every primitive; round-trip stability "
+                "of the remaining classes by the oracle.",
      level_note="Lean kernel; hand-written model of each __post_init__ over the translator-generated field table (T1); "
                 "correspondence sampling; numpy shape semantics are modelled, not verified.")
 _reg("C08", c08.run, translator=("T1", "T4", "T5"),
@@ -216,7 +219,8 @@ _reg("C12", c12.run,
                 "write+read and infer_types the graph-level dictionaries are the children's current ones.",
      level_note="Lean kernel; hand-written model of __post_init__/infer_types; histories with round trips rely on the oracle.")
 _reg("C13", c13.run, translator=("T1", "T2"),
-     theorems=["NirVerif.C13.keys", "NirVerif.C13.no_types", "NirVerif.C13.roundtrip", "NirVerif.C13.roundtrip_exact"],
+     theorems=["NirVerif.C13.keys", "NirVerif.C13.no_types", "NirVerif.C13.roundtrip", "NirVerif.C13.roundtrip_exact",
+               "NirVerif.C13.roundtrip_exact_conv2d"],
      rule="Graphs of the C01 domain plus consistent graphs with erased (None) annotations: to_dict output checked for "
           "plain values and documented keys, for shared ids and shared memory with the graph, for strict (type-identical) "
           "equivalence of from_dict(to_dict(g)), and by mutating the dictionary and re-snapshotting the graph; the model's "
@@ -224,7 +228,8 @@ _reg("C13", c13.run, translator=("T1", "T2"),
      level_text="Kernel-checked: the dictionary of a leaf primitive has exactly the node's fields, metadata and type as keys "
                 "and never the derived types; from_dict(to_dict(n)) re-runs the constructor on exactly the node's own "
                 "field values (None annotations carried); for a node built by the constructor of a class that stores its "
-                "parameters unchanged (Affine, Linear, Scale, Threshold, Delay, I, IF, LI, LIF, SumPool2d, AvgPool2d, Conv1d) "
+                "parameters unchanged (Affine, Linear, Scale, Threshold, Delay, I, IF, LI, LIF, SumPool2d, AvgPool2d, Conv1d), and for Conv2d "
+                "(roundtrip_exact_conv2d: int -> pair normalisation is idempotent), "
                 "that is EXACTLY the same node (roundtrip_exact: a constructed node is the constructor applied to its own "
                 "fields). Independence of mutable state cannot be expressed in a model of "
                 "immutable values: it is observed on the real objects by the oracle (ids, shared memory, mutation).",
